@@ -180,7 +180,7 @@ def run_cluster(ctx, sub, seed, mode, engine, dur, clients, nseq, replay_cases=N
     d = os.path.join(ctx.run_dir, sub)
     shutil.rmtree(d, ignore_errors=True)
     os.makedirs(d)
-    tdur = 3 if ctx.tier == "quick" else 8
+    tdur = 2 if ctx.tier == "quick" else 8
     if ctx.tier != "quick":
         extra = "-partitions " + extra       # thorough: the nemesis also cuts raft links between replicas
     cmd = "%s -seed %d -out %s -port %d -mode %s -engine %s -dur %ds -clients %d -nseq %d -racedur %ds -pairdur %ds" % (
@@ -367,8 +367,8 @@ def run(ctx):
             else:
                 log("replay file has neither a history nor sequential cases (kind=%s): nothing to re-run" % rp.get("kind"))
     elif quick:
-        plan = [("q1", ctx.seed, "inproc", "mem", 12, 6, 30),
-                ("q2", ctx.seed + 7000, "procs", "pebble", 14, 6, 10)]
+        plan = [("q1", ctx.seed, "inproc", "mem", 10, 6, 30),
+                ("q2", ctx.seed + 7000, "procs", "pebble", 12, 6, 10)]
     else:
         s = ctx.seed * 1000
         plan = [("t1", s + 1, "inproc", "mem", 60, 8, 80),
